@@ -15,6 +15,7 @@ FILES = {
     "configuration": "interceptor/configuration.py",
     "init": "__init__.py",
     "requests_hook": "interceptor/hooks/requests.py",
+    "tornado_hook": "interceptor/hooks/tornado.py",
 }
 PROP = "C19"
 obs = []
@@ -689,6 +690,48 @@ def r7(mods):
                   f"results and effects happen under exactly the reviewed conditions ({len(want)} reviewed rows, compared as boolean functions of the conditions)" + ("" if d is None else f"; {d}"))
 
 
+# ---- R8 siblings and wiring that the other rules reach only for the requests hook ----
+def r8(mods):
+    # the tornado hook surfaces a gateway failure carried in the response (fetch(raise_error=False))
+    # before it looks at the headers: `if response.error: raise response.error`
+    tree, path = mods["tornado_hook"]
+    mk = find_func(tree, "_make_request")
+    if mk is None:
+        undec("R4", "tornado/_make_request", rel(path), "function not found")
+    else:
+        pos_raise = pos_validate = None
+        for i, st in enumerate(mk.body):
+            if isinstance(st, ast.If) and src(st.test) == "response.error" and any(isinstance(x, ast.Raise) and x.exc is not None and src(x.exc) == "response.error" for x in st.body):
+                pos_raise = i
+            if "validate_headers(" in src(st) and pos_validate is None:
+                pos_validate = i
+        ok = pos_raise is not None and pos_validate is not None and pos_raise < pos_validate
+        check(ok, "R4", "tornado/response-error-raised-before-headers", loc(path, mk),
+              "the tornado hook raises response.error (a failure the transport reported in the response object) before validate_headers: it is counted by the fail-safe and retried directly")
+    # the traffic filter is built with the block list and the allow list bound to the parameters of
+    # those names (the constructor is called positionally by the package)
+    itree, ipath = mods["init"]
+    ttree, tpath = mods["traffic_filter"]
+    cls = find_class(ttree, "TrafficFilter")
+    ini = find_func(cls, "__init__") if cls else None
+    calls = [n for n in ast.walk(itree) if isinstance(n, ast.Call) and src(n.func) == "TrafficFilter"]
+    if ini is None or not calls:
+        undec("R6", "wiring/traffic-filter-lists", rel(ipath), "TrafficFilter constructor or its call not found")
+    else:
+        params = [a.arg for a in ini.args.args][1:]
+        for c in calls:
+            bound = {}
+            for i, a in enumerate(c.args):
+                if i < len(params):
+                    bound[params[i]] = src(a)
+            for kw in c.keywords:
+                bound[kw.arg] = src(kw.value)
+            bad = [f"{k}={v}" for k, v in bound.items() if ("block" in v and "allow" in k) or ("allow" in v and "block" in k)]
+            n_lists = sum(1 for v in bound.values() if "block_list" in v or "allow_list" in v)
+            check(not bad and n_lists == 2, "R6", "wiring/traffic-filter-lists", loc(ipath, c),
+                  f"the configured block list is bound to the block-list parameter and the allow list to the allow-list parameter ({bound})")
+
+
 TABLE_FUNCS = [
     ("traffic_filter", "TrafficFilter", "is_allowed"),
     ("traffic_filter", "TrafficFilter", "_check_if_host_or_ip_is_allowed"),
@@ -736,7 +779,7 @@ def main():
         undec("R0", "load", "-", f"cannot parse the interceptor sources: {e}")
         mods = None
     if mods:
-        for rule in (r1, r2, r3, r4, r5, r6, r7):
+        for rule in (r1, r2, r3, r4, r5, r6, r7, r8):
             try:
                 rule(mods)
             except Exception as e:
